@@ -20,6 +20,40 @@ func iCanonText(rc *RC, key string) (string, []*ir.Node, string, bool) {
 	return ir.Render(tree), tree, rc.P.Pos(fi.Decl.Pos()), true
 }
 
+// iOdometerText renders a stepper without its peeled exits: a top-level `if` that precedes the
+// carry loop and returns from inside is a fast path for the no-carry case (correct or not, it
+// is outside what the mirror rules decide); the mirror is demanded of the loop and of the
+// statements around it.
+func iOdometerText(rc *RC, key string) (string, []*ir.Node, string, bool) {
+	_, tree, pos, ok := iCanonText(rc, key)
+	if !ok {
+		return "", nil, pos, false
+	}
+	firstLoop := len(tree)
+	for i, n := range tree {
+		if n.Kind == "loop" || n.Kind == "range" {
+			firstLoop = i
+			break
+		}
+	}
+	var out []*ir.Node
+	for i, n := range tree {
+		if i < firstLoop && n.Kind == "if" {
+			ret := false
+			for _, k := range flatten([]*ir.Node{n}) {
+				if k.Kind == "ret" {
+					ret = true
+				}
+			}
+			if ret {
+				continue
+			}
+		}
+		out = append(out, n)
+	}
+	return ir.Render(out), out, pos, true
+}
+
 // I1 + I2: mask polarity and valid/invalid duality.
 func I12(rc *RC) {
 	rc.S.Declare("I1", "mask polarity: NextValidity reports !mask[i]; NextValid stops on !mask[i]; NextInvalid stops on mask[i]", 3)
@@ -341,8 +375,8 @@ func I5(rc *RC) {
 // I6: the column-major stepper is the row-major stepper with the axis order reversed.
 func I6(rc *RC) {
 	rc.S.Declare("I6", "stepper mirror: colMajorNDNext equals ndNext with the loop direction and the done-axis reversed (a one-sided edit to either odometer is reported)", 1)
-	a, _, pos, ok1 := iCanonText(rc, "tensor.(*FlatIterator).ndNext")
-	b, _, _, ok2 := iCanonText(rc, "tensor.(*FlatIterator).colMajorNDNext")
+	a, _, pos, ok1 := iOdometerText(rc, "tensor.(*FlatIterator).ndNext")
+	b, _, _, ok2 := iOdometerText(rc, "tensor.(*FlatIterator).colMajorNDNext")
 	if !ok1 || !ok2 {
 		rc.S.Undec("I6", "ndNext~colMajorNDNext", "-", "unresolved anchor")
 		return
@@ -401,8 +435,8 @@ func alphaNormKeepRecv(s string) string {
 // in and out; that is folded first.
 func I6b(rc *RC) {
 	rc.S.Declare("I6b", "odometer mirror: ndPrevious equals ndNext under the mirror map (+1/-1 on the coordinate, wrap at shape / below zero, wrap to 0 / shape-1, opposite signs on both offset updates)", 1)
-	a, _, pos, ok1 := iCanonText(rc, "tensor.(*FlatIterator).ndNext")
-	b, _, _, ok2 := iCanonText(rc, "tensor.(*FlatIterator).ndPrevious")
+	a, _, pos, ok1 := iOdometerText(rc, "tensor.(*FlatIterator).ndNext")
+	b, _, _, ok2 := iOdometerText(rc, "tensor.(*FlatIterator).ndPrevious")
 	if !ok1 || !ok2 {
 		rc.S.Undec("I6b", "ndNext~ndPrevious", "-", "unresolved anchor")
 		return
